@@ -133,6 +133,12 @@ func genWorldKeyed(src *choice.Src, o WOpts, keySeed uint64) *World {
 		w.AbsInputs = true
 	}
 	w.Version = choice.Pick(src, "bver", []string{"", "", "dev-main", "0.4.2", "0.4.0", "1.2.0", "v0.4.1", "v1.2.0", "v1.0.3", "v2.1.0"})
+	if src.Chance("binfo", 1, 2) {
+		// a release-like binary: commit, tree state and build date stamped in (make, goreleaser, go install)
+		w.Commit = choice.Pick(src, "bcommit", []string{"", "665205f9fb2c80cd703b6a45ed09bb3d3db58184", "0000000"})
+		w.Date = choice.Pick(src, "bdate", []string{"", "2023-11-02T20:53:01Z", "2026-10-01T00:00:00Z", "2024-02-29T23:30:00+09:00", "yesterday"})
+		w.Dirty = choice.Pick(src, "bdirty", []string{"", "true", "false"})
+	}
 	w.MapSeed = seed64(src, "mapseed")
 	w.ListSeed = seed64(src, "listseed")
 	w.Clock = int64(1600000000 + src.Draw("clock", 1<<28))
